@@ -14,7 +14,8 @@ FREE_FIELDS = [f for f in FIELDS if f not in RESERVED]
 # "mid": first == last, differs between; "flag": two values {0, C}; "zerofirst": varies, 0 in the first trace;
 # "perline": a function of the trace's inline number (a swath number, a fold per line)
 # "sameend": varies, the same value (4242) in the last trace for every field of this kind, different first values
-FIELD_KINDS = ["const", "vary", "dup", "extreme", "negvary", "mid", "flag", "zerofirst", "perline", "sameend"]
+# "constext": constant through the file at an end of the field's range (INT32_MIN, 32767, ...)
+FIELD_KINDS = ["const", "vary", "dup", "extreme", "negvary", "mid", "flag", "zerofirst", "perline", "sameend", "constext"]
 FREE_BIN = [3201, 3205, 3209, 3227, 3233, 3235, 3255]
 
 
@@ -73,6 +74,8 @@ def field_columns(fields, n, base):
             a = rng.integers(1, min(hi, 10 ** 6) + 1, n).astype(np.int64)
             a[0] = 0
             cols[c] = a
+        elif k == "constext":
+            cols[c] = np.full(n, [lo, hi, lo + 1, hi - 1, -1][int(rng.integers(0, 5))])
         elif k == "sameend":
             a = rng.integers(1, 4000, n).astype(np.int64)
             a[-1] = 4242
